@@ -75,9 +75,14 @@ def store_prop(files, codes, tags, expl, assumptions=None):
 PROPS["C01"] = store_prop(["Props/C01.v"], ["0", "1", "2", "5", "8"], ["C01"],
     "refinement of the store model to a last-write map; API results compared step by step with the real Store")
 PROPS["C02"] = store_prop(["Props/C02.v"], ["3", "4", "6", "7", "11"], ["C02"],
-    "accounting invariant over the store model; white-box dumps (resident set, policy weights, regions) compared after every step")
+    "per-entry accounting invariant over the store model for every delivery order (Proof/StoreAcc.v); white-box dumps (resident set, policy weights, regions) compared after every step",
+    ["entry pool disabled, no secondary cache",
+     "clock readings passed to maintenance steps are non-decreasing",
+     "theorem guard cost_ok: a delivered cost event leaves the entry's policy-side cost within 1..MaxSize (always true when the cost events of one entry arrive in send order; "
+     "two updates of one entry overtaking each other are covered by the replay and the drained-state monitors only: c02_*_partial)"])
 PROPS["C05"] = store_prop(["Props/C05.v"], ["3", "4", "11"], ["C05"],
-    "listener log of the model vs the real removal listener, per delivered event and per tick")
+    "conservation law entries stored = resident + deletes in flight + notifications over all histories and delivery orders (Proof/StoreInv.v); listener log of the model vs the real removal listener, per delivered event and per tick",
+    ["entry pool disabled, no secondary cache (demotion to a secondary cache is not a removal)", "Close is excluded: it empties the map without notifications by design"])
 PROPS["C06"] = store_prop(["Props/C06.v"], ["0", "1", "8", "3", "4", "11"], ["C06"],
     "Set/loader admission rules over the store model; Set results, immediate visibility and removal reasons compared with the real Store")
 PROPS["C16"] = store_prop(["Props/C16.v"], ["5", "6"], ["C16"],
@@ -170,9 +175,34 @@ HYB_RULE = ("random histories on a real hybrid Store (secondary cache scripted, 
             "FIFO or overtaking order): Set/SetWithTTL/Get-with-promotion/loading Get/Delete, evictions handed to the worker, secondary Set failing "
             "in 20-30% of the worker steps, MaxSize 2..15; non-trivial = >= 3 steps; distinct = sha1 of the case")
 HYB_TB = STORE_TB + ["hook H4 (worker schedule points)", "admission probability 1 and a hand-off queue that never fills (256) in the exercised cases"]
-PROPS["C14"] = {"props_files": ["Props/C14.v"], "go_tests": ["TestVerifHybrid"], "level": "proof", "rule": HYB_RULE, "trusted_base": HYB_TB,
+PROPS["C14"] = {"props_files": ["Props/C14.v"], "go_tests": ["TestVerifHybrid", "TestVerifHybridSlow"], "level": "proof",
+                "rule": HYB_RULE + "; plus scenario runs with the real maintenance goroutine and worker in which the secondary Set of an evicted entry is held open while a foreground Set or Delete of the same key is issued",
+                "impl_only_traces": ["hybridslow"], "trusted_base": HYB_TB,
                 "assumptions": ["secondary operations are atomic with respect to the shard lock as in the code (Get/Set/Delete under the shard lock or by the single worker)"],
                 "monitor_tags": ["C14"], "explanation": "hybrid extension of the store model; every read compared with the real hybrid store and with a last-completed-write shadow"}
 PROPS["C15"] = {"props_files": ["Props/C15.v"], "go_tests": ["TestVerifHybrid"], "level": "proof", "rule": HYB_RULE, "trusted_base": HYB_TB,
                 "assumptions": ["admission probability 1, hand-off queue not full"],
                 "monitor_tags": ["C15"], "explanation": "demotion and boundedness on the hybrid model; secondary contents and hand-off queue compared with the real store"}
+
+PROPS["C18"] = {
+    "props_files": ["Props/C18.v"],
+    "go_tests": ["TestVerifKeys"],
+    "go_alt": {"gocmd": "go1.26.8", "tests": ["TestVerifKeys"], "env": {"VERIF_TRACE_SUFFIX": "126"}},
+    "level": "proof",
+    "rule": "Get/Set/Delete histories on real Stores instantiated for 17 key types (all integer widths, bool, uintptr, named int, string, arrays, "
+            "structs with and without padding, pointers, a struct with a string field under a StringKey function, and an int store under a "
+            "StringKey function that maps every key onto three strings = forced hash collisions); every key is built along three construction paths "
+            "(literal, through strconv / heap objects / re-used slice slots / interfaces, fresh or shared string backing arrays); extreme values and "
+            "zero values included; run with the default toolchain (pre-1.24 hasher: xxh3 over the key's memory) and with go1.26.8 (maphash.Comparable); "
+            "non-trivial = >= 3 steps; distinct = sha1 of the recorded case",
+    "trusted_base": [KERNEL, EXTRACT, HARNESS,
+                     "modelled, not verified: the Go map inside a shard as an association list keyed by the harness's numbering of distinct keys (Go's own ==); "
+                     "the hash of a key is an input of the model",
+                     "NOT proved (runtime part, exercised only): that hasher.Hash is a function of the == class of a key for the key types the property lists "
+                     "(xxh3 over the key's memory / maphash.Comparable, struct layout and padding, string headers)"],
+    "assumptions": ["the hasher is deterministic on == classes (monitored on every operation of the harness: same numbered key, same hash and shard)",
+                    "padding bytes of struct keys are zero (Go zeroes allocations; keys forged through unsafe are outside the claim)"],
+    "monitor_tags": ["C18"],
+    "explanation": "sharding by any hash function refines a flat map (all histories, all hash functions); the real Store's results, hashes and shard indices replayed on the model, "
+                   "hash determinism and no-aliasing monitored on the real code under two toolchains",
+}
